@@ -30,44 +30,32 @@ Qed.
 Lemma gen_slots_agree : forall tg, gen_slots tg = slots_of_target tg.
 Proof. intros [n t]. destruct n; destruct t; reflexivity. Qed.
 
-(* filing is complete for every last step except a function call: a node the step can match
-   is looked up in a list that received the entry *)
+(* filing is complete: a node the last step can match is looked up in a list that received the
+   entry (function-headed patterns are filed under every list) *)
 Lemma filing_by_shape : forall sh k,
-  sh_last sh <> LFunction -> step_may_match (sh_last sh) k = true ->
-  covers (fst (target_data sh)) k = true.
+  step_may_match (sh_last sh) k = true -> covers (fst (target_data sh)) k = true.
 Proof.
-  intros [l m] k Hn H. unfold target_data. cbn [sh_last sh_multi] in *.
-  destruct l as [| |a nt]; [contradiction| |].
+  intros [l m] k H. unfold target_data. cbn [sh_last sh_multi] in *.
+  destruct l as [| |a nt].
+  - destruct k; try discriminate; reflexivity.
   - destruct k; try discriminate; reflexivity.
   - destruct a; destruct nt; destruct k; try discriminate; cbn in *;
       rewrite ?H, ?orb_true_r; try reflexivity.
 Qed.
 
-(* ... and incomplete for id()/key(): text, comment, processing-instruction and root nodes *)
-Lemma function_filing_incomplete : forall m k,
-  In k [KText; KComment; KPI; KRoot] ->
-  step_may_match LFunction k = true /\
-  covers (fst (target_data {| sh_last := LFunction; sh_multi := m |})) k = false.
-Proof.
-  intros m k Hk. cbn in Hk.
-  destruct Hk as [<-|[<-|[<-|[<-|[]]]]]; destruct m; split; reflexivity.
-Qed.
-
-(* the K2 guard of find_template_spec_partial follows from a statement about pattern shapes: if
-   every alternative's target is what getTargetData reports for its shape, no alternative is
-   function-headed, and the matcher only accepts nodes the last step can match, then every
-   matching alternative is filed where the node is looked up *)
+(* "every matching alternative is filed where the node is looked up" follows from a statement
+   about pattern shapes: every alternative's target is what getTargetData reports for its shape
+   and the matcher only accepts nodes the last step can match *)
 Lemma filed_from_shapes :
   forall (node : Type) (key_of : node -> nkey) (pmatch : N -> node -> bool) s n (shape_of : alt -> shape),
   (forall t a, In t (all_templates s) -> In a (t_alts t) ->
      a_target a = fst (target_data (shape_of a)) /\
-     sh_last (shape_of a) <> LFunction /\
      (pmatch (a_pat a) n = true -> step_may_match (sh_last (shape_of a)) (key_of n) = true)) ->
   filed_where_matching node key_of pmatch s n = true.
 Proof.
   intros node key_of pmatch s n shape_of H. unfold filed_where_matching.
   apply forallb_forall. intros t Ht. apply forallb_forall. intros a Ha.
-  destruct (H t a Ht Ha) as (H1 & H2 & H3).
+  destruct (H t a Ht Ha) as (H1 & H3).
   destruct (pmatch (a_pat a) n) eqn:E; [|reflexivity]. cbn.
-  rewrite H1. apply filing_by_shape; [exact H2 | apply H3; reflexivity].
+  rewrite H1. apply filing_by_shape. apply H3; reflexivity.
 Qed.
